@@ -53,7 +53,7 @@ func adminReq(nc *nats.Conn, subj string) (string, error) {
 func runC03(tier string, _ []string) int {
 	c := vlib.NewCtx("C03", tier, "exploration")
 	vlib.SetPortBlock(3)
-	c.SetRule("per case a fresh instance and a PRNG history of 20-120 acknowledged graph operations (create edge-first / points-first, node-point writes incl. -0.0, stale and duplicate writes, edge-point updates, delete, undelete, mirror incl. above populated subtrees and diamonds, move); after every operation (every 5th in thorough) the whole tree is walked and every placement's reported hash is compared with a from-scratch Merkle hash computed from the walk's points only; at the end admin.storeVerify must not complain and admin.storeMaint must change no hash. distinct = (operation kind, graph features present: mirror/diamond/deleted edge/points-first)")
+	c.SetRule("per case a fresh instance and a PRNG history of 20-120 acknowledged graph operations (every eighth history on top of a chain 35-120 nodes deep) (create edge-first / points-first, node-point writes incl. -0.0, stale and duplicate writes, edge-point updates, delete, undelete, mirror incl. above populated subtrees and diamonds, move); after every operation (every 5th in thorough) the whole tree is walked and every placement's reported hash is compared with a from-scratch Merkle hash computed from the walk's points only; at the end admin.storeVerify must not complain and admin.storeMaint must change no hash. distinct = (operation kind, graph features present: mirror/diamond/deleted edge/points-first)")
 	c.Assume("the from-scratch oracle subsumes 'equal content gives equal hash' and 'a change reaches every ancestor': both histories/ancestors are compared with the same function of content")
 	c.Assume("one instance per history, harness is the only writer; node manager start-up writes are awaited (DESIGN 1.6)")
 	nHist := c.N(40, 600)
@@ -72,6 +72,20 @@ func runC03(tier string, _ []string) int {
 			return
 		}
 		d := newGdriver(r, nc, in.RootID, fmt.Sprintf("h%d", i))
+		if i%8 == 7 {
+			// a very deep branch (legal, rare): a change at the bottom has to travel 35-120 edges up
+			depth := 35 + r.Intn(c.N(40, 90))
+			parent := in.RootID
+			for q := 0; q < depth; q++ {
+				id, err := d.create(parent, "group", q%7 == 3)
+				if err != nil {
+					c.Violate("store:legal-write-refused", err.Error(), map[string]any{"case": i, "seed": c.Seed, "ops": d.Log})
+					return
+				}
+				parent = id
+			}
+			c.Count("deep_chains_built", 1)
+		}
 		nOps := 20 + r.Intn(c.N(60, 100))
 		feat := map[string]bool{}
 		for k := 0; k < nOps; k++ {
